@@ -30,8 +30,10 @@ pub enum Fault {
     None,
     /// reader callback #k returns Err at entry (exit=false) or after the real callback returned Ok (exit=true)
     Vis { k: u32, exit: bool },
-    /// the k-th nested `Serialize::serialize` call returns Err
-    Ser { k: u32 },
+    /// the k-th nested `Serialize::serialize` call returns Err: before touching the serializer (exit=false),
+    /// or after its own serializer call came back, whatever that returned (exit=true: a context-wrapping
+    /// `map_err`, a validation after the call)
+    Ser { k: u32, exit: bool },
     /// F-SEED: the reader's k-th `DeserializeSeed::deserialize` (= `T::deserialize` of an element, value,
     /// key or variant) fails *outside* any visitor callback: before touching the deserializer (exit=false:
     /// e.g. a type that rejects the format) or after it returned Ok (exit=true: `#[serde(try_from)]`,
@@ -618,8 +620,18 @@ impl<'c, 'v, T: ?Sized + Serialize> Serialize for PVal<'c, 'v, T> {
         let cx = self.cx;
         let k = cx.ser_count.get();
         cx.ser_count.set(k + 1);
-        if let Fault::Ser { k: fk } = cx.fault.get() {
+        if let Fault::Ser { k: fk, exit } = cx.fault.get() {
             if fk == k && !cx.has_fired() {
+                if exit {
+                    cx.ser_depth.set(cx.ser_depth.get() + 1);
+                    let _ = self.v.serialize(PSer { s, cx });
+                    cx.ser_depth.set(cx.ser_depth.get() - 1);
+                    if cx.has_fired() {
+                        // a nested fault cannot fire (one fault per execution); defensive
+                    }
+                    cx.fire("serialize", true, "");
+                    return Err(<S::Error as ser::Error>::custom(format_args!("injected@{k}")));
+                }
                 cx.fire("serialize", false, "");
                 return Err(<S::Error as ser::Error>::custom(format_args!("injected@{k}")));
             }
